@@ -49,8 +49,8 @@ type aval struct {
 	val    bool
 	word   *aval // avBytes, avKeyBits
 	blen   int64
-	order  string // avBytes: "big", "little", ""
-	fclass string // avFloat
+	order  string  // avBytes: "big", "little", ""
+	fclass string  // avFloat
 	tuple  []*aval // avTuple
 	fconst float64
 	why    string // avUnknown
@@ -159,15 +159,15 @@ func (s *istate) clone() *istate {
 }
 
 type codecInterp struct {
-	c     *Ctx
-	info  *types.Info
-	term  types.Type // the key type of the arm
-	W     int        // bits
-	cl    *keyClass
-	keyV  *types.Var // the key parameter (Transform)
-	paths int
-	fail  string // first reason the interpreter gave up
-	depth int
+	c       *Ctx
+	info    *types.Info
+	term    types.Type // the key type of the arm
+	W       int        // bits
+	cl      *keyClass
+	keyV    *types.Var // the key parameter (Transform)
+	paths   int
+	fail    string // first reason the interpreter gave up
+	depth   int
 	tparams map[*types.TypeParam]types.Type // type parameters of inlined generic helpers
 	// splitAt: the magnitude at which the top bit of some word changes inside the class; the
 	// driver splits the class there and runs both halves again
